@@ -35,6 +35,15 @@ def gen(rng, tier):
                 "write 2", "getall 2", "reread 4 0", "getall 4", "getall 0", "merge 5 0 4", "write 0"]
         obs = [True] + [False] * (len(cmds) - 1)
         out.append(Scenario(cmds, obs, tags=("py" if py else "join" if jn else "default",)))
+    # 1 .. 40 distinct sections, with and without group-less keys on top, read, merged with another such file, written
+    for k in range(1, 41):
+        for top in (b"", b"g=0\n"):
+            c1 = top + b"".join(b"[S%d]\nk=%d\n" % (i, i) for i in range(k))
+            c2 = b"".join(b"[T%d]\nj=%d\n" % (i, i) for i in range(max(1, 41 - k)))
+            out.append(Scenario([gens.parse_cmd(0, b"/d/s1.conf", c1, b"=", b"#"), "groups 0", gens.parse_cmd(1, b"/d/s2.conf", c2, b"=", b"#"),
+                                 "merge 2 0 1", "groups 2", "merge 3 1 0", "groups 3", "reread 4 2", "groups 4",
+                                 "newini 5"] + ["set 5 string %s x6b x76 0" % vlib.enc(b"N%d" % i) for i in range(k)] + ["groups 5", "write 5"],
+                                [True] + [False] * (10 + k + 1), tags=("sections",)))
     # files far larger than the stack the implementation runs with: many long lines, and one very long line
     big1 = b"".join(b"key%d=" % i + b"v" * 990 + b"\n" for i in range(600))
     big2 = b"k=" + b"w" * (3 << 17) + b"\n  " + b"c" * (3 << 17) + b"\n[s]\nj=1\n"
